@@ -57,12 +57,12 @@ type KnownFinding struct {
 }
 
 type Ctx struct {
-	Prop    string
-	Tier    string
-	Seed    int64
-	Only    string // replay: run only this case id
+	Prop     string
+	Tier     string
+	Seed     int64
+	Only     string // replay: run only this case id
 	VerifDir string
-	Repo    string
+	Repo     string
 
 	lean     *leanProc
 	leanPath string
@@ -75,14 +75,14 @@ type Ctx struct {
 	samples     []interface{}
 	traces      int
 
-	mismatches []Mismatch
-	violations []Violation
-	known      []KnownFinding
-	knownHit   map[string]bool
-	extra      map[string]interface{}
+	mismatches  []Mismatch
+	violations  []Violation
+	known       []KnownFinding
+	knownHit    map[string]bool
+	extra       map[string]interface{}
 	assumptions []string
-	rule       string
-	start      time.Time
+	rule        string
+	start       time.Time
 }
 
 func (c *Ctx) Thorough() bool { return c.Tier == "thorough" }
@@ -367,17 +367,17 @@ func cleanup() {
 // ---- evidence / replay ---------------------------------------------------------------------------
 
 type proofInfo struct {
-	Obligations  int                 `json:"obligations"`
-	Discharged   int                 `json:"discharged"`
-	Theorems     []string            `json:"theorems"`
-	Axioms       map[string][]string `json:"axioms"`
-	CheckerCmd   string              `json:"checker_cmd"`
-	BuildOK      bool                `json:"build_ok"`
-	BuildError   string              `json:"build_error"`
-	Generated    []string            `json:"generated"`
-	Leanchecker  string              `json:"leanchecker,omitempty"`
-	ForbiddenHits []string           `json:"forbidden_hits,omitempty"`
-	TrustedBase  []string            `json:"trusted_base"`
+	Obligations   int                 `json:"obligations"`
+	Discharged    int                 `json:"discharged"`
+	Theorems      []string            `json:"theorems"`
+	Axioms        map[string][]string `json:"axioms"`
+	CheckerCmd    string              `json:"checker_cmd"`
+	BuildOK       bool                `json:"build_ok"`
+	BuildError    string              `json:"build_error"`
+	Generated     []string            `json:"generated"`
+	Leanchecker   string              `json:"leanchecker,omitempty"`
+	ForbiddenHits []string            `json:"forbidden_hits,omitempty"`
+	TrustedBase   []string            `json:"trusted_base"`
 }
 
 func (c *Ctx) finish(pi *proofInfo) int {
